@@ -88,6 +88,15 @@ CHECKS = {
             'POSIX symlink semantics of the sandbox file system; positive direction only where '
             'the lookup order is unambiguous.',
             'DESIGN.md 5 C15'),
+    'C17': ('exploration',
+            'Hypothesis-generated sub_context() chains; differential derived-vs-fresh state on '
+            'exhaustive short strings over the chain\'s own delimiter alphabet',
+            'Hundreds (quick) / thousands (thorough) of chains of 1-5 sub_context calls over all '
+            'field groups; for each chain every string <= 3/4 tokens over an alphabet containing '
+            'every configured delimiter is tokenized (strict + tolerant) and parsed under the '
+            'derived and the freshly constructed state; parents are snapshot before and after.',
+            'Only public API is used; equality of token tuples and canonical tree dumps.',
+            'DESIGN.md 5 C17'),
     'C20': ('exploration',
             'bounded-exhaustive enumeration against a counting reference model',
             'Every string <= 7 (quick) / <= 9 (thorough) over {a, NL, CR, space}, every position, '
